@@ -717,6 +717,10 @@ def rule_c03(an, res):
                     if roles.name == 'rr_cache' and seg.effs('UNBIND'):
                         from rules_policy import check_rr_remove
                         check_rr_remove(res, prop, cm, roles, m, seg)
+                    if roles.name == 'rr_cache' and seg.effs('PERM_WR'):
+                        # a moved open-list entry whose element keeps a stale position: a later removal frees a live entry's slot
+                        from rules_policy import check_perm_backptr
+                        check_perm_backptr(res, prop, cm, roles, m, seg)
                     # erased slots return to the free side so that the next insert re-uses them instead of evicting
                     if roles.order is not None and seg.effs('UNBIND') and not any(s2.effs('PART', 'BIND', 'UNBIND', 'CNT') for lp, ss in seg.loops for s2 in ss):
                         from rules_pos import simulate
@@ -730,6 +734,11 @@ def rule_c03(an, res):
                 if k == 'ERASE':
                     for b in ops.find_bodies(top, m):
                         check_erase_truth(res, prop, cm, roles, m, b)
+                if roles.name == 'fifo_cache' and k in ('ERASE', 'INSERT'):
+                    # fifo recycles the head node: a freed node anywhere else makes the next insert into a non-full cache evict a live entry
+                    from rules_pos import check_body
+                    for b in ops.find_bodies(top, m):
+                        check_body(res, prop, cm, roles, m, k, b)
                 if k == 'INSERT' and cm.name in TTL_CACHES:
                     # removals guarded by "the ttl head is expired" read the ttl structure's key: it has to be the entry's deadline
                     from rules_ttl import check_refile
